@@ -91,12 +91,17 @@ def k_fresh_state(P, E, scope=None):
 
 
 def k_fw_immutable(P, E):
-    """FunctionWrapper::clear is called only from Observer::unsubscribe (so captured operator
-    functions / observables are never emptied)."""
-    r = RuleResult("K-fw-immutable", "FunctionWrapper::clear is called only by Observer::unsubscribe")
+    """FunctionWrapper::clear is called only inside impl Observer and only on the observer's own
+    callback slots (so operator functions / observables captured by SOURCE closures are never
+    emptied)."""
+    r = RuleResult("K-fw-immutable", "FunctionWrapper::clear is called only by impl Observer on its own slots")
     for c in E.sites["fw_clear"]:
-        r.instance((c.body.nid, "clear"), True, "clear on %s" % sorted(c.body.term_name(t) for t in c.body.operand_prov(c.args[0])))
-        if c.body.nid != OBSERVER + "::unsubscribe":
-            r.violate((c.body.nid, "FunctionWrapper::clear"),
-                      "a FunctionWrapper is cleared outside Observer::unsubscribe", body=c.body, line=c.line)
+        b = c.body
+        prov = b.operand_prov(c.args[0])
+        own = all(rk == "param" and rd == 1 and path[:1] in (("fn_next",), ("fn_error",), ("fn_complete",)) for (rk, rd, path) in prov)
+        r.instance((b.nid, "clear"), True, "clear on %s" % sorted(b.term_name(t) for t in prov))
+        if not (b.nid.startswith(OBSERVER + "::") and b.kind == "assoc" and own):
+            r.violate((b.nid, "FunctionWrapper::clear"),
+                      "a FunctionWrapper is cleared outside impl Observer (or not one of the observer's own slots): a "
+                      "captured operator function / observable can be emptied for later subscriptions", body=b, line=c.line)
     return r
